@@ -66,3 +66,14 @@ func envInt(k string) int {
 	fmt.Sscan(os.Getenv(k), &v)
 	return v
 }
+
+func init() {
+	if os.Getenv("VERIF_DEBUG_BULK") != "" {
+		defer os.Exit(0)
+		u, _, _, _ := churnUniverse(false)
+		a, b := u[0], M-2
+		cs := churnCase{Universe: u, First: a, KV: true, Bulk: 1300, BulkEvents: []chordlib.Event{{Kind: "join", X: b, Via: a, Quiesce: true}}}
+		o := runChurn(cs)
+		fmt.Printf("live=%v notes=%v c03=%q c05=%q acked=%d\n", o.live, o.notes, o.c03, o.c05, o.acked)
+	}
+}
